@@ -39,6 +39,11 @@ CONCRETE = {   # abstract call kind of Tracker.tla -> concrete model_run calls
               {"builder": "pretty", "entry": "part", "part": "S_EXPRESSION", "text": ""}, {"entry": "part", "part": "S_EXPRESSION", "text": ""}, {"entry": "part", "part": "S_GUARD", "text": "", "scaffold": SC}, {"entry": "part", "part": "S_SYSTEM", "text": ""},
               {"entry": "xml_buffer", "text": XML_OK, "queries": [""], "query_builder": "tiga"}, {"entry": "part", "part": "S_PARAMETERS", "text": ""}],
     "blank": [{"entry": "part", "part": "S_EXPRESSION", "text": "\n", "builtins": False}, {"entry": "part", "part": "S_EXPRESSION", "text": "\n"}, {"entry": "part", "part": "S_SYNC", "text": "  \n\n ", "scaffold": SC}, {"entry": "part", "part": "S_EXPRESSION", "text": "// only a comment"}],
+    # external functions: the same name imported from a library that has it / from one that lacks it (both libraries are glibc's)
+    "extgood": [{"entry": "xta", "text": 'import "libm.so.6" { double j0(double x); };\nprocess P() { state A; init A; }\nsystem P;'},
+                {"entry": "part", "part": "S_DECLARATION", "text": 'import "libm.so.6" { double j0(double x); double y1(double x); };'}],
+    "extbad": [{"entry": "xta", "text": 'import "libc.so.6" { double j0(double x); };\nprocess P() { state A; init A; }\nsystem P;'},
+               {"entry": "part", "part": "S_DECLARATION", "text": 'import "libc.so.6" { double y1(double x); };'}],
     "dimabort": [{"entry": "part", "part": "S_DECLARATION", "text": "int a[int[0,1]][;"}, {"entry": "part", "part": "S_DECLARATION", "text": "typedef int[0,1] t; int a[t][t]["},
                  {"entry": "part", "part": "S_PARAMETERS", "text": "int &a[int[0,1]]["}],
     "array": [{"entry": "part", "part": "S_DECLARATION", "text": "int g[2]; int h[3][4]; int k[2] = {1, 2};"}, {"entry": "xta", "text": "int g[2][3];\n" + XTA_OK},
@@ -204,7 +209,7 @@ def run(tier):
     vf.build_lib("plain")
     rnd = random.Random(c.seed)
     cfg = os.path.join(c.run_dir, "Tracker.cfg")
-    open(cfg, "w").write("CONSTANTS\n  M = 64\n  MaxCalls = %d\n  LlocReset = TRUE\n  TypesReset = TRUE\n  ResetBeforeReport = TRUE\n  ScalarPerBuilder = TRUE\nINIT Init\nNEXT Next\nINVARIANTS EmitHist\nCHECK_DEADLOCK FALSE\n" % (3 if quick else 4))
+    open(cfg, "w").write("CONSTANTS\n  M = 64\n  MaxCalls = %d\n  LlocReset = TRUE\n  TypesReset = TRUE\n  ResetBeforeReport = TRUE\n  ScalarPerBuilder = TRUE\n  NoSymbolCache = TRUE\nINIT Init\nNEXT Next\nINVARIANTS EmitHist\nCHECK_DEADLOCK FALSE\n" % (3 if quick else 4))
     mc = vf.run_tlc("Tracker", cfg, c.run_dir, timeout=1500, keep_out=False)
     c.add_tlc("Tracker", mc, "all call histories; HistoryIndependent evaluated on every state (counter scaled to M = 64)")
     hists = [e for e in mc.emitted if e["h"]]
